@@ -280,6 +280,9 @@ pub fn g_tuple(xs: &[String]) -> String {
 
 // ---------------------------------------------------------------- panics
 pub fn silence_panics() {
+    if std::env::var("SQV_LOUD").is_ok() {
+        return;
+    }
     std::panic::set_hook(Box::new(|_| {}));
 }
 pub fn catch<T>(f: impl FnOnce() -> T) -> Result<T, String> {
